@@ -201,7 +201,9 @@ def part_exits(ctx, pairs, cfgs, per_type_cfgs):
                       "expected_canonical": m["expected"], "observed": m["observed"], "where": diff_pos(obs, exp),
                       "how": "deploy source under config; deploy echo callee (runtime 366000600037366000a000) for ext*; "
                              "call the function named by `exit` with the canonical encoding of value; compare bytes"}
-            if m["exit"].startswith("extcall") and obs is not None and obs[:len(exp)] == exp and len(obs) > len(exp):
+            args_t = ("tuple", (t,)) if m["exit"] == "extcall_calldata" else ("tuple", (t, X.B5))
+            if m["exit"].startswith("extcall") and obs is not None and obs[:len(exp)] == exp and len(obs) > len(exp) \
+                    and len(obs) == 4 + A.size_bound(args_t):
                 # outgoing calldata = selector ++ canonical ++ trailing bytes up to size_bound (dirty memory)
                 known_reported += 1
                 if known_reported == 1:
